@@ -202,6 +202,12 @@ func keyAccessCase(env *keyEnv, pl *payloads.GetResponsePayload, pemModel bool, 
 // keyTransportPayload sends a Get response through an encoding at a version; ok=false when the payload is not
 // encodable / not decodable (then it is not a "decodable object").
 func keyTransportPayload(enc keyEnc, ver kmip.ProtocolVersion, pl *payloads.GetResponsePayload) (*payloads.GetResponsePayload, bool) {
+	out, _, ok := keyTransportPayloadDoc(enc, ver, pl)
+	return out, ok
+}
+
+// keyTransportPayloadDoc also returns the buffer the response was decoded from.
+func keyTransportPayloadDoc(enc keyEnc, ver kmip.ProtocolVersion, pl *payloads.GetResponsePayload) (*payloads.GetResponsePayload, []byte, bool) {
 	msg := &kmip.ResponseMessage{
 		Header: kmip.ResponseHeader{ProtocolVersion: ver, TimeStamp: time.Unix(1700000000, 0), BatchCount: 1},
 		BatchItem: []kmip.ResponseBatchItem{{Operation: kmip.OperationGet, ResultStatus: kmip.ResultStatusSuccess,
@@ -209,15 +215,15 @@ func keyTransportPayload(enc keyEnc, ver kmip.ProtocolVersion, pl *payloads.GetR
 	}
 	doc, p := guard("marshal", func() []byte { return enc.marshal(msg) })
 	if p != "" {
-		return nil, false
+		return nil, nil, false
 	}
 	back := new(kmip.ResponseMessage)
 	err, p := guard("unmarshal", func() error { return enc.unmarshal(doc, back) })
 	if p != "" || err != nil || len(back.BatchItem) != 1 {
-		return nil, false
+		return nil, doc, false
 	}
 	out, ok := back.BatchItem[0].ResponsePayload.(*payloads.GetResponsePayload)
-	return out, ok && out != nil
+	return out, doc, ok && out != nil
 }
 
 type keyGenShape struct {
